@@ -160,6 +160,7 @@ PROPS["C20"] = {
 TR = "internal/tracer"
 
 PROPS["C14"] = {
+    "with": ["C15"],  # the HTTP/2 exchange driver and oracle of the C15 harness
     "level": "exploration",
     "rule": ("request and response bodies built from 0-6 envelope items (flags from {0,1,2,3,0x80,0x81,random}, declared length incl. 0, payloads up to 70 kB, end-stream content in one of 6 encodings, compressed flag set or not), "
              "under stream and non-stream content types, optionally truncated (inside a prefix, right after a prefix, anywhere) and ended by EOF / EOF-with-data / an injected error / an early Close; driven through the exported wrappers "
@@ -170,6 +171,9 @@ PROPS["C14"] = {
                     "an end-stream event is required only for Connect flag 0x02 / gRPC-Web flag 0x80; for other flag/protocol combinations it is optional",
                     "if the independent decoder cannot decode a compressed end-stream payload its content is not asserted"],
     "units": [
+        # the body tracer behind the HTTP/2 connection wrapper, bodies cut inside an envelope prefix
+        {"name": "C14H2Bodies", "pkg": TR, "test": "TestVerifC14H2Bodies", "kind": "rapid",
+         "checks": {"quick": 1500, "thorough": 20000}, "shards": {"quick": 2, "thorough": 8}},
         {"name": "C14Bodies", "pkg": TR, "test": "TestVerifC14Bodies", "kind": "rapid",
          "checks": {"quick": 6000, "thorough": 80000}, "shards": {"quick": 4, "thorough": 16}},
     ],
